@@ -34,6 +34,7 @@ fn property_on_step(prop: &str, before: &Url, op: &Op, after: &Url, status: &str
         "C03" => prop_c03(after, Some(before)).or_else(|| if prop_c02(after).is_none() { prop_c03_roundtrips(after) } else { None }),
         "C05" => prop_c05(after),
         "C06" => prop_c06(before, op, after, status),
+        "C15" => prop_c15_url(before, op, after),
         _ => None,
     }
 }
@@ -289,14 +290,16 @@ pub fn run_known(args: &Args) -> Report {
         &|u| u.as_str() == "about:#f" && u.fragment().is_none());
     wit(&mut rep, "F-C02-2", &["C02", "C03", "C06"], "a://host//x", Op::SetHost(None), &|u| u.as_str() == "a://x");
     wit(&mut rep, "F-C02-8", &["C02", "C03", "C06"], "a:/p", Op::SetPath("//x".into()), &|u| u.as_str() == "a://x");
+    // fixed (0cfc9d8): set_path on a cannot-be-a-base URL tested for the leading '/' before tab/LF/CR removal
+    wit(&mut rep, "F-C06-6", &["C02", "C03", "C05", "C06"], "a:b", Op::SetPath("\t/ y".into()),
+        &|u| !u.cannot_be_a_base() || u.as_str() == "a:/ y");
     rep
 }
 
 pub fn run_replay(args: &Args) -> Report {
     let dbg = if cfg!(debug_assertions) { "1" } else { "0" };
     let prop = args.extra.first().cloned().unwrap_or_else(|| "C02".into());
-    let txt = std::fs::read_to_string(&args.file).unwrap_or_default();
-    let req = txt.split("\"request\":").nth(1).and_then(|s| s.split('"').nth(1)).unwrap_or("").to_string();
+    let req = replay_request(&args.file);
     let mut cx = Ctx { drv: Driver::spawn(&args.driver), rep: Report::new(), dbg, prop: prop.clone(), search: false };
     if req.is_empty() {
         cx.rep.notes.push("replay file has no request (no-failing-input-found replay): nothing to re-run".into());
